@@ -1,7 +1,7 @@
 SPECIFICATION Spec
 CONSTANTS
   Keys = {"A", "B", "C"}
-  Syms = {"N", "I"}
+  Syms = {"N", "0.5"}
   PVals <- MC_PVals
   CutVals = {2, 3}
   MaxKeys = 3
